@@ -76,7 +76,7 @@ def run(ctx):
     n_size = n_spam = n_pipe_hist = 0
     per_scope = {}
     # share of histories that also go through Pipeline.In (unban iterations are the constant 4 there)
-    pipe_budget = 24000 if ctx.tier == "quick" else 150000
+    pipe_budget = 24000 if ctx.tier == "quick" else 100000
     pipe_candidates = []
     samples = []
     with open(size_path, "w") as fsz, open(spam_path, "w") as fsp:
@@ -171,9 +171,11 @@ def run(ctx):
     # a deviation switch that is on must correspond to a finding that reproduces on the real code
     counts = dict(ra.get("violation_counts") or {})
     stale = []
-    if strict["residual_on_violates"] and not any(k.startswith("ban_below_threshold/true/") for k in counts):
+    if ctx.replay:
+        pass
+    elif strict["residual_on_violates"] and not any(k.startswith("ban_below_threshold/true/") for k in counts):
         stale.append("D_ResidualAfterUnban is on in the specification but the real code no longer bans below threshold after an unban")
-    if strict["exceptions_ignored_on_violates"] and not any(k.startswith("exception_dropped/false/true/exception") for k in counts):
+    if not ctx.replay and strict["exceptions_ignored_on_violates"] and not any(k.startswith("exception_dropped/false/true/exception") for k in counts):
         stale.append("D_ExceptionsIgnoredWithRules is on in the specification but the real code no longer drops exception matches when rules exist")
     drift = ra.get("drift", 0) + rp["hist"].get("drift", 0) + ra.get("dump_drift", 0)
     ctx.drift = drift + len(stale)
